@@ -677,9 +677,13 @@ def _read_fasta(ctx, f):
                          "target-only", node=dnode)
                 raised += 1
             else:
-                raise AnalysisError(
-                    f"{f.qual}: has_decoys = {show(v, 80)} outside the "
-                    "protein loop is not a form this rule reads")
+                # e.g. "missing < number of targets", a sum over a
+                # comprehension: not judged by this clause (the latch
+                # clause above and the pairing clause still apply)
+                ctx.note(f"{f.qual}: has_decoys = {show(v, 80)} outside "
+                         "the protein loop is not a form the existential "
+                         "clause reads; clause skipped")
+                raised += 1
         ctx.require(raised >= 1,
                     f"{f.qual}: no place where has_decoys is raised")
     ok = (kw.get("decoy_prefix") == ("param", "decoy_prefix")
